@@ -54,7 +54,7 @@ def has_asm_or_toggle(text):
 
 # ------------------------------------------------------------------ relayout (C06)
 
-def relayout(text, rng, crlf=False):
+def relayout(text, rng, crlf=False, directives_as_tokens=False):
     """Change horizontal whitespace / indentation / space<->single newline at gaps between two
     non-comment tokens; keep blank-line groups (a gap with >= 2 newlines keeps >= 2) and every gap
     that touches a comment. Returns None if the text is excluded (asm, toggles)."""
@@ -69,7 +69,9 @@ def relayout(text, rng, crlf=False):
             continue
         prev = toks[i - 1][0] if i > 0 else None
         nxt = toks[i + 1][0] if i + 1 < n else None
-        if prev is None or nxt is None or is_comment_kind(prev) or is_comment_kind(nxt) or prev == "unk" or nxt == "unk":
+        cprev = is_comment_kind(prev) and not (directives_as_tokens and prev == "dir")
+        cnext = is_comment_kind(nxt) and not (directives_as_tokens and nxt == "dir")
+        if prev is None or nxt is None or cprev or cnext or prev == "unk" or nxt == "unk":
             out.append(t)
             continue
         if prev in ("str", "num", "mls") or nxt in ("str", "num", "mls"):
@@ -278,20 +280,26 @@ class GrammarGen:
             self.mark(p, depth, "closer")
             self.emit(p, "end")
         elif c < 0.74:
-            self.emit(p, "if " + self.expr(1) + " then begin")
+            self.emit(p, "if " + self.expr(1) + " then ")
+            self.mark(p, depth, "ctlbegin")
+            self.emit(p, "begin")
             self.stmt_list(p, depth + 1, nest + 1)
             self.nl(p, depth)
             self.mark(p, depth, "closer")
             self.emit(p, "end")
             if r.random() < 0.4:
-                self.emit(p, " else begin")
+                self.emit(p, " else ")
+                self.mark(p, depth, "ctlbegin")
+                self.emit(p, "begin")
                 self.stmt_list(p, depth + 1, nest + 1)
                 self.nl(p, depth)
                 self.mark(p, depth, "closer")
                 self.emit(p, "end")
         elif c < 0.80:
-            self.emit(p, r.choice(["while " + self.expr(1) + " do begin", "for " + self.ident() + " := " + self.expr(2) + " to " + self.expr(2) + " do begin",
-                                   "for " + self.ident() + " in " + self.ident() + " do begin", "with " + self.ident() + " do begin"]))
+            self.emit(p, r.choice(["while " + self.expr(1) + " do ", "for " + self.ident() + " := " + self.expr(2) + " to " + self.expr(2) + " do ",
+                                   "for " + self.ident() + " in " + self.ident() + " do ", "with " + self.ident() + " do "]))
+            self.mark(p, depth, "ctlbegin")
+            self.emit(p, "begin")
             self.stmt_list(p, depth + 1, nest + 1)
             self.nl(p, depth)
             self.mark(p, depth, "closer")
